@@ -2,6 +2,7 @@ package checks
 
 import (
 	"fmt"
+	"os"
 	"sort"
 	"strings"
 
@@ -66,6 +67,7 @@ func monitorSession(c *vk.Ctx, a *app.App, cfg app.Config, hist []string, o sess
 		pr = app.NewPerRequest(a, cfg, b)
 		pr.Res.FilterReserved = o.FilterReserved
 		d = pr
+		m.FreshEngine = true
 	}
 	defer d.Close()
 	for step, in := range hist {
@@ -196,6 +198,9 @@ func monitorSession(c *vk.Ctx, a *app.App, cfg app.Config, hist []string, o sess
 				}
 				st.Langs[e.Lang] = true
 			}
+		}
+		if p.PostStateUnknown {
+			break
 		}
 		// state after the request: live objects and (persisted driver) the decoded stored snapshot
 		views := []struct {
@@ -399,7 +404,7 @@ func (mc *modelCheck) run(c *vk.Ctx) {
 				c.Inconclusive(d.Msg)
 				continue
 			}
-			if !mc.Kinds[d.Kind] {
+			if !mc.Kinds[d.Kind] && os.Getenv("VERIF_ALL_KINDS") == "" {
 				c.Count("discrepancies_of_other_properties_ignored:"+d.Kind, 1)
 				continue
 			}
